@@ -19,9 +19,20 @@ fn pass(b: &[u8]) -> Passthrough {
 /// order: verify, verify_strict, raw_verify, verify_prehashed, verify_prehashed_strict,
 /// raw_verify_prehashed, Context::verify_digest, DigestVerifier (no context, only when ctx empty)
 pub fn verify_all(pk: &[u8; 32], msg: &[u8], sig: &[u8; 64], ctx: &[u8], has_ctx: bool) -> Vec<u8> {
-    let vk = match VerifyingKey::from_bytes(pk) {
-        Ok(v) => v,
-        Err(_) => return vec![0u8; 8],
+    // the key parsed from an array and from a slice must behave identically (0xEE marks a disagreement)
+    let a = verify_all_with(VerifyingKey::from_bytes(pk).ok(), msg, sig, ctx, has_ctx);
+    let b = verify_all_with(VerifyingKey::try_from(&pk[..]).ok(), msg, sig, ctx, has_ctx);
+    if a == b {
+        a
+    } else {
+        vec![0xEE; 8]
+    }
+}
+
+fn verify_all_with(vk: Option<VerifyingKey>, msg: &[u8], sig: &[u8; 64], ctx: &[u8], has_ctx: bool) -> Vec<u8> {
+    let vk = match vk {
+        Some(v) => v,
+        None => return vec![0u8; 8],
     };
     let s = Signature::from_bytes(sig);
     let c = if has_ctx { Some(ctx) } else { None };
